@@ -930,8 +930,10 @@ def rule_copymeta(ctx) -> RuleResult:
         "in copy of the EM survey classes, no entry of the SOURCE's own metadata dictionary that is an entity reference "
         "(a uuid.UUID value: the link identifiers) is written into the new entity's metadata: the write is unreachable / "
         "filtered out under the assumption `isinstance(value, UUID)` (three-valued over the guards on the way, through "
-        "filtering comprehensions and generator helpers)",
-        floor=1,
+        "filtering comprehensions and generator helpers); and every entry that IS transferred passes through a deep-copying "
+        "call on the way (the value, the dictionary handed over, or the container iterated): the copied pair shares no nested "
+        "container (waveform, channels) with the originals",
+        floor=2,
     )
     p = ctx.p
     from ..cfg import CFG
@@ -939,15 +941,24 @@ def rule_copymeta(ctx) -> RuleResult:
     MSG = ("the copy records the ORIGINAL entities' identifiers; its metadata setter resolves the originals through them and pushes "
            "the copy's dictionary onto them: copy and original end up cross-linked")
     CONSTRUCT = "entity references (UUID values) of the source's metadata are copied to the new entity"
+    MSG2 = ("the nested containers of the shared parameters (the 'Waveform' dictionary, channel lists) of the copied pair ARE the source pair's objects: "
+            "an in-place edit through any of them (timing_mark, waveform) shows on all pairs in memory but is stored for one only")
+    CONSTRUCT2 = "entries of the source's metadata are handed to the new entity without a deep copy"
+
+    def deep(e) -> bool:
+        """a deep-copying call occurs in the expression"""
+        return any(isinstance(c, ast.Call) and (c.func.attr if isinstance(c.func, ast.Attribute) else getattr(c.func, "id", None)) == "deepcopy" for c in ast.walk(e))
 
     def facts(var):
         f = {"UUID": True, "notnone:" + var: True, "truthy:" + var: True}
         f.update({k: False for k in ("str", "int", "float", "bool", "list", "tuple", "dict", "set", "bytes", "ndarray")})
         return f
 
-    def analyse(fn, fl, body, sn, events_of, depth):
-        """events_of(stmt) -> value expressions the statement writes to the new entity (or, in a generator helper, yields)."""
+    def analyse(fn, fl, body, sn, events_of, depth, fresh_outer=False):
+        """events_of(stmt) -> (value expression, deep-copied at the level of the dictionary?) the statement writes to the new entity
+        (or, in a generator helper, yields)."""
         cfg = CFG(body)
+        fresh_iter = {}
 
         def own(e) -> bool:
             return any(is_metadata_of(x, sn) for x in ast.walk(e))
@@ -1003,22 +1014,30 @@ def rule_copymeta(ctx) -> RuleResult:
                         out.append(("gen", g, o))
                     elif own(o):
                         out.append(("direct", v.id))
+                        fresh_iter[v.id] = fresh_iter.get(v.id, True) and any(deep(x) for x in fl.origins(it))
             # an alias of such a variable
             for d in fl.defs.get(v.id, []):
-                if isinstance(d, ast.Name):
-                    out += sources(d, seen + (v.id,))
+                if isinstance(d, (ast.Name, ast.Call)):
+                    out += sources(d, seen + (v.id,))  # a Call: only a copying call around a name is looked through (above)
             return out
 
         for n in _stmt_nodes(cfg):
-            for v in events_of(n.ast):
+            for v, fresh_dict in events_of(n.ast):
                 if isinstance(v, ast.DictComp):
                     # a filtering comprehension handed over directly
                     f = comp_filtered(v)
                     srcs = [("comp", f)] if f is not None else []
+                    fresh_value = deep(v.value) or any(deep(y) for gn in v.generators for y in fl.origins(gn.iter))
                 else:
                     srcs = sources(v)
+                    fresh_value = any(deep(o) for o in fl.origins(v) + [v])
                 for src in srcs:
                     where = f"{fn.module.relpath}:{n.lineno}"
+                    if src[0] != "gen":
+                        fresh = fresh_outer or fresh_dict or fresh_value or (src[0] == "direct" and fresh_iter.get(src[1], False))
+                        res.inst(f"{fn.qualname}:{n.lineno} source metadata entry -> new entity: deep-copied on the way", nontrivial=True, ok=fresh)
+                        if not fresh:
+                            res.find(fn.cls.name, fn.name, CONSTRUCT2, where, MSG2)
                     if src[0] == "direct":
                         var = src[1]
                         f = facts(var)
@@ -1038,10 +1057,10 @@ def rule_copymeta(ctx) -> RuleResult:
                             out = []
                             for y in ast.walk(a):
                                 if isinstance(y, ast.Yield) and y.value is not None:
-                                    out += list(y.value.elts) if isinstance(y.value, ast.Tuple) else [y.value]
+                                    out += [(e, False) for e in (y.value.elts if isinstance(y.value, ast.Tuple) else [y.value])]
                             return out
 
-                        analyse(fn, gfl, gnode, gsn, yields, depth + 1)
+                        analyse(fn, gfl, gnode, gsn, yields, depth + 1, fresh_outer or fresh_dict or fresh_value)
                         continue
                     if not ok:
                         res.find(fn.cls.name, fn.name, CONSTRUCT, where, MSG)
@@ -1070,11 +1089,16 @@ def rule_copymeta(ctx) -> RuleResult:
                     dicts.append(v)
             out = []
             for d in dicts:
-                for o in fl.origins(d):
-                    if isinstance(o, ast.Dict):
-                        out += list(o.values)
+                work = [(o, False) for o in fl.origins(d)]
+                while work:
+                    o, fresh = work.pop()
+                    if isinstance(o, ast.Call) and (o.func.attr if isinstance(o.func, ast.Attribute) else getattr(o.func, "id", None)) in ("deepcopy", "dict") and len(o.args) == 1:
+                        nm = o.func.attr if isinstance(o.func, ast.Attribute) else o.func.id
+                        work += [(x, fresh or nm == "deepcopy") for x in fl.origins(o.args[0])]
+                    elif isinstance(o, ast.Dict):
+                        out += [(v, fresh) for v in o.values]
                     elif isinstance(o, ast.DictComp):
-                        out.append(o)
+                        out.append((o, fresh))
             return out
 
         analyse(fn, fl, fl.view_node, sn, written, 0)
